@@ -1,3 +1,218 @@
-def generate(REPO, GEN, OUT, masks, enums, die):
-    import os
-    open(os.path.join(GEN, "builder.rs"), "w").write("// placeholder\n")
+"""Generates harness/src/gen/builder.rs: one call per public Builder method of /repo's CURRENT
+sources (C06, C12, C13, C16).  Only the signatures are read from the source text; what a method
+does is observed at run time.  A signature shape the generator cannot handle is a tool error
+naming the method -- never a silent skip.
+
+Also (with --pin) writes spec/BuilderMethods.json, the pinned table method -> opcode name / kind
+taken from the pinned tree's doc comments ("Appends an OpX instruction ...") and, for the
+hand-written methods, from the list below; at run time the table is an oracle: a method body
+that emits another opcode or files it elsewhere disagrees with it."""
+import json, os, re, sys
+
+FILES = ["mod.rs", "autogen_type.rs", "autogen_constant.rs", "autogen_annotation.rs", "autogen_terminator.rs",
+         "autogen_debug.rs", "autogen_norm_insts.rs"]
+
+# hand-written methods of mod.rs: name -> (opcode name or None, kind)
+HAND = {
+    "capability": ("Capability", "global"), "extension": ("Extension", "global"), "ext_inst_import": ("ExtInstImport", "global"),
+    "memory_model": ("MemoryModel", "global"), "entry_point": ("EntryPoint", "global"), "execution_mode": ("ExecutionMode", "global"),
+    "execution_mode_id": ("ExecutionModeId", "global"), "ext_inst": ("ExtInst", "block"), "line": ("Line", "line"), "no_line": ("NoLine", "line"),
+    "decoration_group": ("DecorationGroup", "global"), "string": ("String", "global"),
+    "type_forward_pointer": ("TypeForwardPointer", "global"), "type_pointer": ("TypePointer", "type_id"), "type_opaque": ("TypeOpaque", "global"),
+    "constant_bit32": ("Constant", "const"), "constant_bit64": ("Constant", "const"),
+    "spec_constant_bit32": ("SpecConstant", "const"), "spec_constant_bit64": ("SpecConstant", "const"),
+    "variable": ("Variable", "var_undef"), "undef": ("Undef", "var_undef"),
+    "begin_function": ("Function", "begin_function"), "end_function": ("FunctionEnd", "end_function"),
+    "function_parameter": ("FunctionParameter", "param"), "begin_block": ("Label", "begin_block"),
+    "begin_block_no_label": (None, "begin_block_no_label"),
+    # non-emitting
+    "new": (None, "meta"), "new_from_module": (None, "meta"), "insert_into_block": (None, "meta"), "insert_types_global_values": (None, "meta"),
+    "pop_instruction": (None, "pop"), "set_version": (None, "meta"), "version": (None, "meta"), "module": (None, "meta"), "module_ref": (None, "meta"),
+    "module_mut": (None, "meta"), "selected_function": (None, "meta"), "selected_block": (None, "meta"), "id": (None, "id"),
+    "dedup_insert_type": (None, "meta"), "find_return_block_indices": (None, "meta"), "select_function_by_name": (None, "meta"),
+    "select_function": (None, "select_function"), "select_block": (None, "select_block"),
+}
+KIND_BY_FILE = {"autogen_type.rs": "type", "autogen_constant.rs": "const", "autogen_annotation.rs": "global",
+                "autogen_debug.rs": "global", "autogen_terminator.rs": "term", "autogen_norm_insts.rs": "block"}
+
+
+def split_params(params):
+    out, depth, cur = [], 0, ""
+    for ch in params:
+        if ch in "<([":
+            depth += 1
+        elif ch in ">)]":
+            depth -= 1
+        if ch == "," and depth == 0:
+            out.append(cur)
+            cur = ""
+        else:
+            cur += ch
+    if cur.strip():
+        out.append(cur)
+    return [" ".join(p.split()) for p in out if p.strip()]
+
+
+def parse_methods(REPO):
+    methods = []
+    for f in FILES:
+        src = open(os.path.join(REPO, "rspirv", "dr", "build", f)).read()
+        src_nt = src.split("#[cfg(test)]")[0]
+        for m in re.finditer(r'((?:\s*#\[doc = "[^"]*"\]\s*)*)\s*pub fn (\w+)\s*(?:<[^>]*>)?\(\s*(.*?)\)\s*(->\s*[^{]+)?\{', src_nt, re.S):
+            doc, name, params, ret = m.group(1), m.group(2), m.group(3), (m.group(4) or "")
+            ps = []
+            for p in split_params(params):
+                if p in ("&mut self", "&self", "self", "mut self"):
+                    continue
+                n, t = p.split(":", 1)
+                ps.append((n.strip(), " ".join(t.split())))
+            ret = " ".join(ret.replace("->", "").split())
+            dm = re.search(r"(?:Appends|Insert)s? an? Op(\w+) instruction", doc or "")
+            methods.append({"name": name, "params": ps, "ret": ret, "file": f, "doc_op": dm.group(1) if dm else None})
+    return methods
+
+
+def method_table(methods):
+    tab = {}
+    for m in methods:
+        n = m["name"]
+        if m["file"] == "mod.rs":
+            if n not in HAND:
+                raise SystemExit("gen_builder: TOOL ERROR: hand-written Builder method %s is not known to the generator" % n)
+            tab[n] = {"op": HAND[n][0] or "", "kind": HAND[n][1]}
+        else:
+            kind = KIND_BY_FILE[m["file"]]
+            if n.startswith("insert_") and kind in ("term", "block"):
+                kind = "insert_" + kind
+            if kind == "type" and n.endswith("_id"):
+                kind = "type_id"
+            if m["doc_op"] is None:
+                raise SystemExit("gen_builder: TOOL ERROR: cannot find the opcode in the doc comment of %s" % n)
+            tab[n] = {"op": m["doc_op"], "kind": kind}
+    return tab
+
+
+def generate(REPO, GEN, OUT, masks, enums, die, pin=False):
+    methods = parse_methods(REPO)
+    live_tab = method_table(methods)
+    json.dump({"methods": live_tab, "count": len(methods)}, open(os.path.join(OUT, "live_builder_methods.json"), "w"), indent=0, sort_keys=True)
+    if pin:
+        here = os.path.dirname(os.path.abspath(__file__))
+        json.dump(live_tab, open(os.path.join(here, "..", "spec", "BuilderMethods.json"), "w"), indent=0, sort_keys=True)
+
+    def conv(kind, expr):
+        if kind in masks:
+            return "spirv::%s::from_bits(%s).expect(\"vh: mask value\")" % (kind, expr)
+        if kind in enums:
+            return "spirv::%s::from_u32(%s).expect(\"vh: enum value\")" % (kind, expr)
+        die("builder parameter of unknown spirv type %s" % kind)
+
+    lines = ["// GENERATED by gen_builder.py from /repo's current Builder sources. Do not edit.\n",
+             "use rspirv::dr::{self, Builder, InsertPoint};\n", "use crate::bdrive::*;\n",
+             "pub const N_PUB_FN: usize = %d;\n" % len(methods)]
+    callable_names = []
+    arms = []
+    for m in methods:
+        n, ps, ret = m["name"], m["params"], m["ret"]
+        kind = live_tab[n]["kind"]
+        if kind == "meta":
+            continue
+        callable_names.append(n)
+        binds, args = [], []
+        special = None
+        # hand-written one-offs with argument constraints the types do not express
+        if n in ("execution_mode", "execution_mode_id"):
+            special = ('let p0 = a.word(); let (mode, lits) = a.exec_mode(%s); a.flat_words(&lits);\n        out_unit({ b.%s(p0, %s, lits); })'
+                       % ("true" if n == "execution_mode_id" else "false", n, conv("ExecutionMode", "mode")))
+        elif n in ("spec_constant_op",):
+            special = 'let p0 = a.rt(); a.flat_w(1); out_id(b.spec_constant_op(p0, spirv::Op::Undef))'
+        elif n == "select_function":
+            special = 'let i = a.index(); out_res_unit(b.select_function(i))'
+        elif n == "select_block":
+            special = 'let i = a.index(); out_res_unit(b.select_block(i))'
+        elif n == "pop_instruction":
+            special = 'out_res_inst(b.pop_instruction())'
+        elif n == "id":
+            special = 'out_id(b.id())'
+        elif n == "begin_function":
+            special = ('let p0 = a.rt(); let p1 = a.result_id(); let c = a.enum_plain("FunctionControl"); let p3 = a.word();\n'
+                       '        out_res_id(b.begin_function(p0, p1, %s, p3))' % conv("FunctionControl", "c"))
+        if special:
+            arms.append('    "%s" => { %s }\n' % (n, special))
+            continue
+        for i, (pn, pt) in enumerate(ps):
+            v = "p%d" % i
+            nxt = ps[i + 1] if i + 1 < len(ps) else None
+            followed = nxt is not None and nxt[1] == "impl IntoIterator<Item = dr::Operand>" and nxt[0] == "additional_params"
+            if pn == "result_type" and pt == "spirv::Word":
+                binds.append("let %s = a.rt();" % v)
+            elif pn in ("result_id", "function_id", "label_id") and pt == "Option<spirv::Word>":
+                binds.append("let %s = a.result_id();" % v)
+            elif pt == "InsertPoint":
+                binds.append("let %s = a.insert_point();" % v)
+            elif pt == "spirv::Word":
+                binds.append("let %s = a.word();" % v)
+            elif pt == "Option<spirv::Word>":
+                binds.append("let %s = a.opt_word();" % v)
+            elif pt == "u32":
+                binds.append("let %s = a.lit32();" % v)
+            elif pt == "u64":
+                binds.append("let %s = a.lit64();" % v)
+            elif pt == "u8":
+                binds.append("let %s = a.lit8();" % v)
+            elif pt == "impl Into<String>":
+                binds.append("let %s = a.string();" % v)
+            elif pt == "Option<impl Into<String>>":
+                binds.append("let %s = a.opt_string();" % v)
+            elif pt == "impl IntoIterator<Item = spirv::Word>" or pt == "impl AsRef<[spirv::Word]>":
+                binds.append("let %s = a.words();" % v)
+            elif pt == "impl IntoIterator<Item = u32>" or pt == "impl AsRef<[u32]>":
+                binds.append("let %s = a.lits();" % v)
+            elif pt == "impl IntoIterator<Item = (spirv::Word, spirv::Word)>":
+                binds.append("let %s = a.pairs_ww();" % v)
+            elif pt == "impl IntoIterator<Item = (spirv::Word, u32)>":
+                binds.append("let %s = a.pairs_wl();" % v)
+            elif pt == "impl IntoIterator<Item = (dr::Operand, spirv::Word)>":
+                binds.append("let %s = a.pairs_ow();" % v)
+            elif pt == "impl IntoIterator<Item = dr::Operand>":
+                if pn == "additional_params":
+                    binds.append("let %s = a.extra_params();" % v)
+                else:
+                    binds.append("let %s = a.id_operands();" % v)
+            elif pt.startswith("Option<spirv::"):
+                k = pt[len("Option<spirv::"):-1]
+                binds.append('let %s = a.opt_enum("%s", %s).map(|x| %s);' % (v, k, "true" if followed else "false", conv(k, "x")))
+            elif pt.startswith("spirv::"):
+                k = pt[len("spirv::"):]
+                binds.append('let %s = { let x = a.%s("%s"); %s };' % (v, "enum_any" if followed else "enum_plain", k, conv(k, "x")))
+            else:
+                die("Builder method %s: unhandled parameter type `%s` (parameter %s)" % (n, pt, pn))
+            args.append(v)
+        call = "b.%s(%s)" % (n, ", ".join(args))
+        if ret == "BuildResult<spirv::Word>":
+            wrap = "out_res_id(%s)" % call
+        elif ret == "BuildResult<()>":
+            wrap = "out_res_unit(%s)" % call
+        elif ret == "spirv::Word":
+            wrap = "out_id(%s)" % call
+        elif ret == "":
+            wrap = "out_unit({ %s; })" % call
+        else:
+            die("Builder method %s: unhandled return type `%s`" % (n, ret))
+        arms.append('    "%s" => { %s\n        %s }\n' % (n, " ".join(binds), wrap))
+    lines.append("pub const METHODS: &[&str] = &[%s];\n" % ", ".join('"%s"' % n for n in callable_names))
+    lines.append("#[allow(unused_variables, unused_mut, clippy::all)]\n")
+    lines.append("pub fn call_method(b: &mut Builder, name: &str, a: &mut Args) -> CallOut { match name {\n")
+    lines.extend(arms)
+    lines.append('    other => panic!("vh: no generated call for Builder method {}", other),\n} }\n')
+    open(os.path.join(GEN, "builder.rs"), "w").write("".join(lines))
+
+
+if __name__ == "__main__":
+    # stand-alone use: python3 gen_builder.py --pin   (needs gen.py's parse of the spirv crate)
+    sys.path.insert(0, os.path.dirname(os.path.abspath(__file__)))
+    import gen
+    masks, enums, order, consts = gen.parse_spirv()
+    os.makedirs(gen.GEN, exist_ok=True); os.makedirs(gen.OUT, exist_ok=True)
+    generate(gen.REPO, gen.GEN, gen.OUT, masks, enums, gen.die, pin="--pin" in sys.argv)
+    print("ok")
